@@ -25,8 +25,8 @@ pub fn params(prop: &str, tier: &str) -> Params {
         "C20" => (3, 4, 40, 1200),
         "C06" => (3, 5, 40, 1200),
         "C07" => (4, 6, 40, 900),
-        "C08" => (3, 5, 40, 1200),
-        "C09" => (3, 5, 40, 1200),
+        "C08" => (4, 5, 60, 1500),
+        "C09" => (4, 5, 60, 1500),
         _ => (3, 5, 40, 900),
     };
     let prop_static: &'static str = Box::leak(prop.to_string().into_boxed_str());
@@ -50,6 +50,7 @@ pub fn config_for(prop: &str) -> Config {
         }
         "C08" | "C09" => {
             c.settle_lookahead = true;
+            c.light_battery = true;
         }
         "C01" => {
             c.settle_lookahead = true;
